@@ -563,7 +563,11 @@ def _shl(a, n):
             raise ValueError('negative shift count')
         if n.v == 0:
             return a
-        return SymInt(ir.shl(a.n, n.v), a.lo << n.v, a.hi << n.v)
+        r = SymInt(ir.shl(a.n, n.v), a.lo << n.v, a.hi << n.v)
+        la = _lin_of(a)
+        if la is not None and not a.signed:
+            r.lin = (dict((i, c << n.v) for i, c in la[0].items()), la[1] << n.v)
+        return r
     if n.lo < 0:
         if (n < 0):
             raise ValueError('negative shift count')
@@ -590,6 +594,11 @@ def _shr(a, n):
             return SymInt.mk(ir.slc(a.n, n.v, a.w - n.v), a.lo >> n.v, a.hi >> n.v)
         if n.v >= a.w:
             return 0
+        if a.lin is not None:
+            m = (1 << n.v) - 1
+            if not (a.lin[1] & m) and not any(c & m for c in a.lin[0].values()):
+                # exact division of an exact linear form
+                return _from_lin(dict((i, c >> n.v) for i, c in a.lin[0].items()), a.lin[1] >> n.v, a.lo >> n.v, a.hi >> n.v)
         return SymInt.mk(ir.slc(a.n, n.v, a.w - n.v), a.lo >> n.v, a.hi >> n.v)
     if n.lo < 0:
         if (n < 0):
